@@ -72,6 +72,8 @@ pub struct EnergySpec {
     pub grades: Vec<f64>,
     pub cache: bool,
     pub capacity_kwh: f64,
+    /// (cache size, speed key precision, grade key precision) of the prediction cache
+    pub cache_cfg: (usize, i32, i32),
 }
 
 impl AppSpec {
@@ -330,7 +332,7 @@ pub fn write_config(spec: &AppSpec, dir: &Path) -> std::io::Result<(PathBuf, Str
         let gp = dir.join("grades.txt");
         std::fs::write(&gp, en.grades.iter().map(|s| format!("{s:?}")).collect::<Vec<_>>().join("\n") + "\n")?;
         let mdir = "/repo/rust/routee-compass-powertrain/src/routee/test";
-        let cache = if en.cache { ", float_cache_policy = { cache_size = 64, key_precisions = [3, 5] }" } else { "" };
+        let cache = if en.cache { format!(", float_cache_policy = {{ cache_size = {}, key_precisions = [{}, {}] }}", en.cache_cfg.0, en.cache_cfg.1, en.cache_cfg.2) } else { String::new() };
         let model = |name: &str, file: &str, eru: &str| format!("name = \"{name}\", model_input_file = \"{mdir}/{file}\", model_type = \"smartcore\", speed_unit = \"miles_per_hour\", grade_unit = \"decimal\", energy_rate_unit = \"{eru}\", ideal_energy_rate = 0.05{cache}");
         let vehicle = match en.vehicle.as_str() {
             "ice" => format!("{{ type = \"ice\", {} }}", model("ice", "Toyota_Camry.bin", "gallons_gasoline_per_mile")),
